@@ -52,8 +52,17 @@ pub struct Session {
     main: Option<tokio::task::JoinHandle<String>>,
 }
 
+/// The `file:` URI of a path as an editor sends it: every byte outside the unreserved set is percent-encoded.
 pub fn uri_of(path: &Path) -> String {
-    format!("file://{}", path.display())
+    let mut out = String::from("file://");
+    for b in path.to_string_lossy().bytes() {
+        if b.is_ascii_alphanumeric() || matches!(b, b'-' | b'.' | b'_' | b'~' | b'/') {
+            out.push(b as char);
+        } else {
+            out.push_str(&format!("%{b:02X}"));
+        }
+    }
+    out
 }
 
 impl Session {
